@@ -38,6 +38,7 @@ ASSUME = ['IEEE rounding is not modelled: theorems are over the reals; impl vs F
           'clause tolerances: rtol 1e-9 + 1e-7 m/s on ground speeds; linear-field reproduction rtol 1e-7 (independent ISA formula)']
 
 DATES = ['20240101', '20240102']
+MISSING_DATE = '20240103'   # a day for which no weather file is written: every query for it must be refused, also when repeated
 
 
 # --------------------------------------------------------------------------- findings fragment (known_findings.json may not be merged yet)
@@ -161,7 +162,7 @@ def run_world_impl(env, world, queries):
                 else:
                     g = w.get_ground_speed(ts, pt, float(q['alt']), float(q['tas']), azimuth=float(q['hdg']))
                 res.append({'ok': float(g)})
-            except ValueError:
+            except (ValueError, FileNotFoundError):
                 res.append({'err': 'refused'})
             except Exception as e:  # noqa: BLE001
                 res.append({'err': 'internal:' + type(e).__name__})
@@ -241,6 +242,14 @@ def clauses(ctx, world, queries, res, fields, variant_of):
         ctx.clause_fail(cl, case, finding=fid, detail=detail)
 
     for i, (q, r) in enumerate(zip(queries, res)):
+        if q['date'] == MISSING_DATE:
+            ctx.count('missing_day_query' + (':repeat' if q.get('tag') == 'missing_day_repeat' else ''))
+            if 'ok' in r:
+                fail('outside_domain_refused', i, f"a query for a day without a weather file was answered ({r['ok']!r}) "
+                                                  f"{'when repeated' if q.get('tag') == 'missing_day_repeat' else ''}", False)
+            elif r['err'] != 'refused':
+                fail('no_internal_error', i, f'{r}', False)
+            continue
         spec = world[q['date']]
         f = fields[q['date']]
         bad_input = any(math.isnan(q[k]) for k in ('alt', 'lat', 'lon'))
@@ -452,6 +461,13 @@ def gen_queries(rng, world, n):
              'lat': float(rng.uniform(la_lo, la_hi)), 'lon': float(rng.uniform(lo_lo, lo_hi)),
              'alt': alt_for_levels(rng, spec['ps']), 'tas': float(rng.choice([0.0, 60.0, 150.0, 200.0, 251.5, float(rng.uniform(1, 300))])),
              'hdg': float(rng.uniform(0, 360)), 'via': 'point' if rng.random() < 0.5 else 'arg', 'other_az': float(rng.uniform(0, 360))}
+        if qs and rng.random() < 0.04:
+            # a day whose file does not exist (refused), and — on the same Weather object — exactly the same query again
+            qm = dict(q, date=MISSING_DATE, tag='missing_day')
+            qs.append(qm)
+            if rng.random() < 0.7:
+                qs.append(dict(qm, tag='missing_day_repeat'))
+            continue
         other = world[DATES[1] if date == DATES[0] else DATES[0]]
         if (other['lats'] != spec['lats'] or other['lons'] != spec['lons'] or other['ps'] != spec['ps']) and rng.random() < 0.25:
             # a point chosen inside the OTHER day's domain (it may be inside or outside this day's): what counts is the file of the day asked for
@@ -541,6 +557,8 @@ def evaluate(ctx, env, world, queries, register=True):
     clauses(ctx, world, queries, res, fields, variant_of)
     if register:
         for q, r, vo in zip(queries, res, variant_of):
+            if q['date'] == MISSING_DATE:
+                continue
             spec = world[q['date']]
             ctx.count(('refused' if 'err' in r else 'ok') + ':' + spec['kind'] + (':time' if spec['has_time'] else ':notime'))
             ctx.count('variant:' + vo)
